@@ -20,6 +20,7 @@ def cfg : Cfg :=
     clearPer := genFormsSeparate && Gen.C10.diskClearNames.contains Gen.C10.diskPerName
     linuxFilter := Gen.C10.linuxSkipsPartitions
     lockedRun := Gen.C10.runUnderLock
-    lockedClear := Gen.C10.clearUnderLock }
+    lockedClear := Gen.C10.clearUnderLock
+    rkAccumulate := Gen.C10.rkAccumulates }
 
 end Psutil.C10
